@@ -16,9 +16,11 @@ f) GRANT over several event types: the permission set stored for one event type 
    AuthManager::grant_permission is built inside the loop iteration and does not flow from a variable that is mutated across iterations.
 e) revocation is visible to the next request: user_ops::revoke_key returns Ok only after the user cache and permission cache were updated (active = false); AuthManager::revoke_key also revokes sessions;
    grant/revoke_permission return Ok only after update_caches.
+(g) only key creation activates a key: every User / UserKey record built in engine::auth whose secret_key is copied from an existing record takes `active` from that same record (or sets it false: revocation);
+a constant true next to a copied secret re-activates a revoked key on the next permission update.
 """
-FLOOR = 13
-REQUIRED = ["C13.a", "C13.b1", "C13.b2", "C13.b3", "C13.c", "C13.d", "C13.e", "C13.f"]
+FLOOR = 14
+REQUIRED = ["C13.a", "C13.b1", "C13.b2", "C13.b3", "C13.c", "C13.d", "C13.e", "C13.f", "C13.g"]
 
 GATES = r"(tcp::listener::check_auth|http::dispatcher::check_auth_with_headers|Connection::check_auth|AuthManager::validate_session_token)(::\{closure#0\})?$"
 MAPT = re.compile(NEXT_TRANSPARENT.pattern[:-2] + r"|(std|core)::option::Option::<T>::(map|and_then))$")
@@ -492,3 +494,31 @@ def run(ctx):
         # the per-type existing permissions are looked up for the iterated type
         return bad
     ctx.run("C13.f", "K7 PROV (loop independence)", "handlers::permissions::handle GRANT loop", "a GRANT on several event types treats each type independently", f_)
+
+    def g_(inst):
+        bad, n = [], 0
+        for k in sorted(F.keys()):
+            if not k.startswith("engine::auth::") or k.startswith("bin:"):
+                continue
+            b = F.fn_exact(k)
+            for (bb, j, v, dst) in b.aggregates("auth::types::User") + b.aggregates("auth::types::UserKey"):
+                fl = v.get("fields", [])
+                if "active" not in fl or "secret_key" not in fl:
+                    continue
+                La = deep_origins(F, b, v["o"][fl.index("active")])
+                Ls = deep_origins(F, b, v["o"][fl.index("secret_key")])
+                copied = [l for l in Ls if l[0] in ("call", "param", "upvar") and ".secret_key" in [str(p_) for p_ in (l[3] if l[0] == "call" else l[2])]]
+                if not copied:
+                    continue   # a fresh secret (creation): a constant `active` is the point
+                n += 1
+                carried = [l for l in La if l[0] in ("call", "param", "upvar") and ".active" in [str(p_) for p_ in (l[3] if l[0] == "call" else l[2])]]
+                consts = {l[1] for l in La if l[0] == "const"}
+                inst.sites.append("%s @ %s: %s.active <- %s" % (norm_path(k).split("::{closure")[0].split("::")[-1], sp(b, bb), v["adt"].split("::")[-1], fmt_leaves(La)))
+                if "true" in consts or (not carried and consts != {"false"}):
+                    bad.append(("reactivates-key:%s" % norm_path(k).split("::{closure")[0], "%s rebuilds a user record around an existing secret key with active = %s instead of carrying the record's own flag: a revoked key works again after this update" % (norm_path(k).split("::{closure")[0].split("::")[-1], fmt_leaves(La)), None))
+        if bad:
+            return bad
+        if n < 3:
+            raise AnchorMissing("user records rebuilt around an existing secret key in engine::auth (found %d, confirmed 6)" % n)
+        return bad
+    ctx.run("C13.g", "K7 PROV", "engine::auth: User / UserKey records rebuilt from an existing one", "a permission update cannot re-activate a revoked key", g_)
